@@ -192,7 +192,7 @@ class Contract:
         cs = State()
         cs.locals = loc
         cs.pc = st.pc
-        cs.ghost = st.ghost
+        cs.ghost = dict(st.ghost)
         cs.dec_list, cs.dec_pos = st.dec_list, st.dec_pos
         callee_fr = Frame(None, None, None, self.qual)
         try:
@@ -236,11 +236,16 @@ class Contract:
                 res = make_value(ex, cs, self.result, self.short + ".result")
             cs.locals["result"] = res
             cs.old = pre
+            # the callee's ghost variables are existentially quantified for the caller: fresh symbols
+            for gk, gv in self.ghost.items():
+                try:
+                    v0 = ex.ev(parse_spec(gv), cs, self.spec_frame(callee_fr))
+                except (Undecided, PyRaise):
+                    v0 = 0
+                cs.ghost[gk] = ex.havoc_value(v0, self.short + "." + gk, st)
             for e in self.ensures:
                 f = self.eval_spec(ex, e, cs, callee_fr)
                 st.assume(z3ify(f))
-            for k in list(cs.ghost):
-                st.ghost[k] = cs.ghost[k]
             return cs.locals["result"]
         finally:
             st.dec_pos = max(st.dec_pos, cs.dec_pos)
